@@ -367,8 +367,9 @@ def check_perpendicular(run, S, name, spec, kw):
 def run(tier):
     run = Run(PROP, tier, 'other')
     h = build()
+    mono_ = h.monomorphise(['f32', 'f64'], bound='<S: BaseFloat>', kinds=None, method_syntax=True, soft=True)   # concrete scalar types, both spellings: what a user of f32 / f64 really gets
     S, inv, meta = facts.extract(PROP, h.src())
-    report_dropped(run, meta)
+    report_dropped(run, meta, h)
     run_specs(run, S, h, custom={'approx': check_approx, 'finite': check_finite, 'ulps_const': check_ulps_const, 'eq_zero': check_eq_zero, 'diagonal': check_diagonal,
                                  'symmetric': check_symmetric, 'invertible': check_invertible, 'perpendicular': check_perpendicular})
     run.floor('approx_impls', len([n for n in run.roots if '_eq__' in n]), 57)
